@@ -156,7 +156,8 @@ def sweep(tier, seed=0):
     # right-hand sides that hold their variables inside lists (and lists inside lists): the result of a top-level
     # rewrite is the rhs with the bindings substituted everywhere
     def _inst(t, sb):
-        if isinstance(t, (list, tuple)):
+        # like dask.core.subs: lists and tasks (tuples headed by a callable) are traversed, other tuples are literals
+        if isinstance(t, list) or (isinstance(t, tuple) and t and callable(t[0])):
             return type(t)(_inst(a_, sb) for a_ in t)
         try:
             return sb[t] if t in sb else t
@@ -164,7 +165,7 @@ def sweep(tier, seed=0):
             return t
 
     if sum(1 for x in fails if not x.args.get("arity_mismatch")) < 5:
-        for lhs, rhs in [((f, "x", "y"), (g, ["x", ["y"]])), ((f, "x", "y"), ["y", "x"]), ((g, "x"), (h, "x", [("x",)])), ((f, "x", "x"), [["x"], 0])]:
+        for lhs, rhs in [((f, "x", "y"), (g, ["x", ["y"]])), ((f, "x", "y"), ["y", "x"]), ((g, "x"), (h, "x", ["x", [0, "x"]])), ((f, "x", "x"), [["x"], 0])]:
             rs = RuleSet(RewriteRule(lhs, rhs, VARS))
             for term in [t for t in tms if isinstance(t, tuple)][:: 2 if tier == "quick" else 1]:
                 cases += 1
